@@ -29,10 +29,18 @@ echo "--- existing tests WITH change (touched packages $TOUCHED $*)"
 T=$(go test -count=1 $TOUCHED "$@" 2>&1 | grep -v "no test files" | tail -6); echo "$T"
 mv /tmp/demo-$NAME.go.bak $DEMO
 cd /verif
-echo "--- our check $PROP quick against the change"
-mv $WT/$DEMO /tmp/demo-$NAME.go.bak   # the demo is not part of the change
-C=$(VERIF_REPO=$WT ./vr $PROP quick 2>&1 | grep -E "^VIOLATION|^  key=|^KNOWN|quick:|CHECK-ERROR|BUILD" | head -8); echo "$C"
-mv /tmp/demo-$NAME.go.bak $WT/$DEMO
+echo "--- our check $PROP quick against the change (fresh worktree of /repo HEAD + patch)"
+RW=/tmp/reseed-$NAME
+git -C /repo worktree remove --force $RW 2>/dev/null
+git -C /repo worktree add -q $RW HEAD
+if git -C $RW apply $OUT/patch.diff; then
+  C=$(VERIF_REPO=$RW ./vr $PROP quick 2>&1 | grep -E "^VIOLATION|^  key=|^KNOWN|quick:|CHECK-ERROR|BUILD" | head -8)
+else
+  C="PATCH-DOES-NOT-APPLY-TO-HEAD"
+fi
+echo "$C"
+git -C /repo worktree remove --force $RW
+rm -rf /verif/.build/alt-_tmp_reseed_$(echo $NAME | tr '-' '_')
 python3 - "$NAME" "$PROP" "$W" "$WO" "$T" "$C" <<'PY'
 import json,sys
 name,prop,w,wo,t,c=sys.argv[1:7]
@@ -44,4 +52,3 @@ meta={"seed":name,"property":prop,
 json.dump(meta,open(f"/verif/seeded/{name}/meta.json","w"),indent=1)
 print({k:v for k,v in meta.items() if isinstance(v,bool)})
 PY
-rm -rf /verif/.build/alt-_tmp_seed_$(echo $NAME | tr '-' '_')
